@@ -15,6 +15,7 @@ RULE = ("each case builds a structure from real pieces (repository proteins, cut
         "digest, options)."
         " 12 % of the built cases run with a parameter file that keeps penalised groups (every site listed); 30 % carry neutral extra options (-q, --log-level, -g/-w, -r, --protonate-all, -k, -d).")
 RULE = RULE + ' Round 8: for inputs with several models the report of every conformation is written through propka.output.write_pka(conformation=...) and its two tables are held against the census of that model.'
+RULE = RULE + ' Rounds 10-12: two cysteines with sulfurs at exactly 2.5 A on exactly representable coordinates (no bridge) and axis-aligned disulfides swept across grid cells (bridged); fragment records in any order with exactly the declared groups; residues cut back to their defining atom; sites completed at one position from other models belong to one residue.'
 ASSUMPTIONS = ["inputs with alternate-location tags, exact 2.5 A S-S ties or two separate residues sharing one "
                "identity are not judged by the census (counted in census_not_judged)",
                "ligand group typing has no independent oracle: only charge / model pKa per reported type are "
